@@ -663,6 +663,10 @@ def r14_8(ctx):
             ctx.ok(construct, rel, n.lineno, {"key": src(ke), "raw_parameters": []})
             continue
           for p in rawp:
+            if f is fn and p == pname:
+              ctx.ok(f"{construct}:{p}", rel, n.lineno,
+                     {"key": src(ke), "note": "decided by the constant_to_value:* instances"})
+              continue
             typed = any(_mentions_type_of(e, p) or (
                 isinstance(e, ast.Name) and e.id != p and any(
                     isinstance(d, ast.Assign) and _mentions_type_of(d.value, p)
@@ -703,6 +707,11 @@ def _is_recursive(mod, fn, callee):
 
 
 B = stubs.BUILTINS
+_KEY_TODAY = ("    if pyval.__class__ is tuple:\n"
+              "      type_key = tuple(type(v) for v in pyval)\n"
+              "    else:\n"
+              "      type_key = type(pyval)\n"
+              '    key = ("constant", pyval, type_key)\n')
 VARIANTS = [
     {"name": "binops-swap-add-and", "rule": "R14.1", "file": VM, "expect": "fire",
      "old": "        self.byte_BINARY_ADD,\n        self.byte_BINARY_AND,",
@@ -745,4 +754,44 @@ VARIANTS = [
      "new": "      if not result.bindings:\n        if ctx.options.report_errors and False:\n          ctx.errorlog.unsupported_operands(ctx.vm.frames, name, x, y)"},
     {"name": "twin-binops-tuple", "rule": "R14.1", "file": VM, "expect": "silent",
      "old": "    binop = binops[op.arg]\n    return binop(state, op)", "new": "    return binops[op.arg](state, op)"},
+    # -- R14.8 (the two `twin-` variants also repair the two defects the rule
+    # reports on the reference tree, so that they are silent there)
+    {"name": "seeded-C14-m2", "rule": "R14.8", "patch": "seeded/C14-m2/patch.diff",
+     "expect": "fire"},
+    {"name": "constant-key-without-type", "rule": "R14.8", "file": CONVERT, "expect": "fire",
+     "old": '    key = ("constant", pyval, type_key)\n',
+     "new": '    key = ("constant", pyval)\n'},
+    {"name": "tuple-key-records-length-only", "rule": "R14.8", "file": CONVERT, "expect": "fire",
+     "old": "      type_key = tuple(type(v) for v in pyval)\n",
+     "new": "      type_key = (tuple, len(pyval))\n"},
+    {"name": "literal-memo-on-raw-value", "rule": "R14.8", "file": CONVERT, "expect": "fire",
+     "old": "      value = pyval\n    return self.constant_to_value(value, subst)\n",
+     "new": "      value = pyval\n    memo = (\"literal\", pyval)\n"
+            "    if memo not in self._convert_cache:\n"
+            "      self._convert_cache[memo] = self.constant_to_value(value, subst)\n"
+            "    return self._convert_cache[memo]\n"},
+    {"name": "twin-recursive-type-key-helper", "rule": "R14.8", "expect": "silent",
+     "edits": [
+         (CONVERT, _KEY_TODAY, '    key = ("constant", pyval, _type_key(pyval))\n'),
+         (CONVERT, "class Converter(utils.ContextWeakrefMixin):\n",
+          "def _type_key(pyval):\n"
+          "  if pyval.__class__ is tuple:\n"
+          "    return (tuple, tuple(_type_key(v) for v in pyval))\n"
+          "  if pyval.__class__ is frozenset:\n"
+          "    return (frozenset, frozenset((v, _type_key(v)) for v in pyval))\n"
+          "  return type(pyval)\n\n\n"
+          "class Converter(utils.ContextWeakrefMixin):\n")]},
+    {"name": "twin-recursive-type-key-method", "rule": "R14.8", "expect": "silent",
+     "edits": [
+         (CONVERT, _KEY_TODAY,
+          "    memo_type = self._constant_type_key(pyval)\n"
+          '    key = ("constant", pyval, memo_type)\n'),
+         (CONVERT, "  def _load_late_type(self, late_type):\n",
+          "  def _constant_type_key(self, const):\n"
+          "    if const.__class__ is tuple or const.__class__ is frozenset:\n"
+          "      return (const.__class__,\n"
+          "              tuple(sorted((repr(e), repr(self._constant_type_key(e)))\n"
+          "                           for e in const)))\n"
+          "    return const.__class__\n\n"
+          "  def _load_late_type(self, late_type):\n")]},
 ]
